@@ -189,6 +189,24 @@ class CCFGBuilder:
             g.edge(j, entry)
             return j
         if kind in EXPR_KINDS:
+            # `x = c ? a : b;` is the two assignments under the two outcomes
+            # of c (so that path rules see the cases, exactly as for the
+            # equivalent if/else)
+            top = strip(s)
+            if top is not None and top.kind == "BinaryOperator" \
+                    and top.op == "=" and len(top.ch) == 2:
+                rhs = strip(top.ch[1])
+                if rhs is not None and rhs.kind == "ConditionalOperator" \
+                        and len(rhs.ch) == 3:
+                    import copy as _copy
+                    arms = []
+                    for arm in (rhs.ch[1], rhs.ch[2]):
+                        a = _copy.copy(top)
+                        a.ch = [top.ch[0], arm]
+                        n = g.new("stmt", a, s.line)
+                        g.edge(n, k.next)
+                        arms.append(n)
+                    return self.cond(rhs.ch[0], arms[0], arms[1])
             n = g.new("stmt", s, s.line)
             g.edge(n, k.next)
             return n
